@@ -9,12 +9,13 @@ argument is a small tagged list:
   ["b", "latin-1 text"]                   bytes
   ["date", y, m, d]
   ["dt", y, m, d, H, M, S, tz]            tz: null | ["utc"] | ["zi", key] | ["pytz", key]
-                                              | ["du", key] | ["fixed", minutes]
+                                              | ["du", key] | ["fixed", minutes] | ["fixed", minutes, name]
+                                              | ["simdst"] (a hand-written tzinfo with two names and offsets)
   ["date", y, m, d, "sub"]  ["dt", ..., tz, "sub"]
                                           the same value as an instance of a subclass of date / datetime
                                           (what freezegun, pandas or pendulum hand to the library)
   ["time", H, M, S]
-  ["td", days, seconds]
+  ["td", days, seconds]  ["td", days, seconds, microseconds]
   ["list", [spec, ...]]
   ["period", dtspec, dtspec-or-tdspec]
   ["recur", {"FREQ": [..], ...}]          values are plain JSON (str/int) lists
@@ -29,6 +30,26 @@ class SubDate(date):
 
 class SubDatetime(datetime):
     """A datetime of a subclass, as other libraries hand them out."""
+
+
+class SimDST(__import__("datetime").tzinfo):
+    """A hand-written zone as client code has them: +01:30 'SWT', +02:30 'SST' from April to September.
+    Hashable by identity; no library can identify it."""
+
+    def _summer(self, dt):
+        return dt is not None and 4 <= dt.month <= 9
+
+    def utcoffset(self, dt):
+        return timedelta(minutes=150 if self._summer(dt) else 90)
+
+    def dst(self, dt):
+        return timedelta(minutes=60 if self._summer(dt) else 0)
+
+    def tzname(self, dt):
+        return "SST" if self._summer(dt) else "SWT"
+
+
+SIMDST = SimDST()
 
 
 def tz_of(spec):
@@ -47,7 +68,11 @@ def tz_of(spec):
         import dateutil.tz
         return dateutil.tz.gettz(spec[1])
     if kind == "fixed":
+        if len(spec) > 2 and spec[2]:
+            return timezone(timedelta(minutes=spec[1]), spec[2])
         return timezone(timedelta(minutes=spec[1]))
+    if kind == "simdst":
+        return SIMDST
     raise ValueError(f"bad tz spec {spec!r}")
 
 
@@ -73,7 +98,7 @@ def to_py(spec):
     if kind == "time":
         return time(spec[1], spec[2], spec[3])
     if kind == "td":
-        return timedelta(days=spec[1], seconds=spec[2])
+        return timedelta(days=spec[1], seconds=spec[2], microseconds=spec[3] if len(spec) > 3 else 0)
     if kind == "list":
         return [to_py(s) for s in spec[1]]
     if kind == "period":
@@ -141,7 +166,7 @@ def describe(obj):
     if isinstance(obj, time):
         return ["time", obj.hour, obj.minute, obj.second]
     if isinstance(obj, timedelta):
-        return ["td", obj.days, obj.seconds]
+        return ["td", obj.days, obj.seconds] + ([obj.microseconds] if obj.microseconds else [])
     if isinstance(obj, (list, tuple)):
         return [type(obj).__name__] + [describe(x) for x in obj]
     if isinstance(obj, dict):
